@@ -124,14 +124,16 @@ func (e *caseEnv) begin(c *Call) {
 }
 
 type goTool struct {
-	name  string
-	reg   func(s *mcp.Server, env *caseEnv, toolName string)
-	expIn func(args []byte) ([]byte, error) // independent decoding of the arguments into In (encoding/json), re-marshalled
+	name        string
+	reg         func(s *mcp.Server, env *caseEnv, toolName string)
+	expIn       func(args []byte) ([]byte, error) // independent decoding of the arguments into In (encoding/json), re-marshalled
+	explicitOut bool                              // an explicit OutputSchema is registered (not derived from Out)
 }
 
 func mk[In, Out any](name string, inSchema, outSchema any) goTool {
 	return goTool{
-		name: name,
+		name:        name,
+		explicitOut: outSchema != nil,
 		reg: func(s *mcp.Server, env *caseEnv, toolName string) {
 			mcp.AddTool(s, &mcp.Tool{Name: toolName, InputSchema: inSchema, OutputSchema: outSchema},
 				func(ctx context.Context, req *mcp.CallToolRequest, in In) (*mcp.CallToolResult, Out, error) {
